@@ -137,18 +137,20 @@ def run(ctx: Ctx) -> None:
         AL = ["a", "b", " ", "  ", "\n", "\\", "\\*", "\\a", "*", "&", "\t", "é", "\\\n", "x  \n", "!", "[", "😀", "\\\\", "$", ":", "_",
               "\\&", "\\<", "   \n", "\\ "]
         ALB = AL + ["`", "``", "```", "\\`", "` `", " ` ", "`a`", "`` ` ``"]
+        ALS = ALB + ["~", "~~", "~~~", "~~~~", "~~~~~", "*", "**", "_", "b~~", "~~c", "~*", "*~", "\\~", "a~~b", "(~~", "~~)"] * 2
         ALM = ALB + ["*", "**", "***", "_", "__", "b*", "*c", "_d_", "**e", "f**", "*_", "_*", "é*", "*é", "a*b", "(*", "*)", "._", "_.", "“", "a_b"] * 2
         lines, exp, meta = [], [], []
-        for it in range(2500 if quick else 50000):
-            rs = rng.choice(["tne", "te", "tn", "t", "ne", "e", "", "tneb", "tb", "teb", "b", "tnb", "neb", "tnebm", "tm", "tem", "tbm", "m", "nebm"])
-            s = "".join(rng.choice(ALM if "m" in rs else ALB if "b" in rs else AL) for _ in range(rng.randint(0, 14 if "m" in rs else 12 if "b" in rs else 10)))
+        for it in range(3500 if quick else 70000):
+            rs = rng.choice(["tne", "te", "tn", "t", "ne", "e", "", "tneb", "tb", "teb", "b", "tnb", "neb", "tnebm", "tm", "tem", "tbm", "m", "nebm", "tnebsm", "ts", "tes", "tbsm", "tsm", "s", "nebs"])
+            s = "".join(rng.choice(ALS if "s" in rs else ALM if "m" in rs else ALB if "b" in rs else AL)
+                        for _ in range(rng.randint(0, 14 if ("m" in rs or "s" in rs) else 12 if "b" in rs else 10)))
             if it % 4 == 0:
                 s = esc_bs("".join(rng.choice(ALPH) for _ in range(rng.randint(1, 8))).replace("\x0b", ""))
             mn = rng.choice([20, 1, 0, 3])
             fj = rng.random() < 0.7
             tj = rng.random() < 0.7
             md = MarkdownIt("zero", {"maxNesting": mn})
-            en = [{"n": "newline", "e": "escape", "b": "backticks", "m": "emphasis"}[c] for c in rs if c in "nebm"]
+            en = [{"n": "newline", "e": "escape", "b": "backticks", "m": "emphasis", "s": "strikethrough"}[c] for c in rs if c in "nebms"]
             if en:
                 md.enable(en)
             if "t" not in rs:
@@ -171,7 +173,7 @@ def run(ctx: Ctx) -> None:
         for e, g, m in zip(exp, got, meta):
             ctx.corr_compared += 1
             if e.strip() != g.strip():
-                ctx.mismatch("inline engine (text/newline/escape/backticks/emphasis/balance_pairs/fragments_join/text_join): implementation and model differ",
+                ctx.mismatch("inline engine (text/newline/escape/backticks/strikethrough/emphasis/balance_pairs/fragments_join/text_join): implementation and model differ",
                              {"input": m[0], "rules": m[1], "maxNesting": m[2], "fragments_join": m[3], "text_join": m[4],
                               "impl": e[:400], "model": g[:400]})
         # ---- tie: unescapeAll (entity table not modelled: inputs whose &…; sequences are not entities, or escaped)
